@@ -1142,3 +1142,5 @@ func (s *sim) finish(items *[]string) {
 
 var _ = hex.EncodeToString
 var _ = bytes.Equal
+
+func srvYieldCount(p string) int64 { return srv.YieldCount(p) }
